@@ -262,6 +262,10 @@ def check(ctx, rep):
             done_c.add(s.func)
             completeness_obligations(ctx, rep, eff, s, H)
     loader_guard_obligations(ctx, rep, eff, "R11a")
+    rep.rule("R11h", "= R10c: the cache file is written once per generated listing, after the last change to it - a reader (or a writer that dies) "
+             "between two writes would find a complete, loadable file with an unfinished listing, which no guard can tell from the real one", floor=2)
+    from .c10 import save_order_obligations
+    save_order_obligations(ctx, rep, "R11h")
     rep.rule("R11g", "what runs after a failed cache load (the handlers around the load and what they call) cannot fail on the request itself: "
              "no format operation there has request text in its format string (= R03m on the failure paths)", floor=1)
     failure_path_total_obligations(ctx, rep, eff, "R11g")
